@@ -19,8 +19,10 @@ package main
 //   return | return e | return e, nil | return nil
 
 import (
+	"bytes"
 	"fmt"
 	"go/ast"
+	"go/printer"
 	"go/parser"
 	"go/token"
 	"go/types"
@@ -732,6 +734,7 @@ func main() {
 		}
 	}
 	emitKernels(&sb, get)
+	emitMethods(&sb, get)
 	fmt.Fprintf(&sb, "\nDefinition rule_prologues : list (string * string) :=\n  [ %s ].\n", strings.Join(prologues, ";\n    "))
 	// write only when changed (keeps make incremental)
 	old, _ := os.ReadFile(out)
@@ -741,4 +744,10 @@ func main() {
 			os.Exit(1)
 		}
 	}
+}
+
+func nodeText(n ast.Node) string {
+	var b bytes.Buffer
+	printer.Fprint(&b, token.NewFileSet(), n)
+	return strings.Join(strings.Fields(b.String()), " ")
 }
